@@ -10,6 +10,7 @@ import (
 
 	"golang.org/x/tools/go/ssa"
 
+	"saoverif/internal/cfgx"
 	"saoverif/internal/core"
 	"saoverif/internal/guard"
 	"saoverif/internal/term"
@@ -390,6 +391,7 @@ func checkC02(r *core.Run) {
 	r.Rule("L1: natural loops classified by exit test on every cycle + monotone induction variable with bounding comparison | iterator Valid/Next | range Next | strictly shrinking memory-held slice; otherwise an undischarged termination obligation")
 	r.Rule("L1-rec: no call cycle among consensus-reachable hand-written functions")
 	r.Rule("L2-div: Dec/Int Quo*, integer / and % in block-hook-reachable code: constant non-zero divisor, dominating non-zero test, or module parameter whose registered validator bounds it (derived: ParamSetPairs -> validator -> bound; GetParams/NewParams chain; no unvalidated writer)")
+	r.Rule("L2-couple: a slice indexed by the position in a collection of at most n selected items requires n to be incremented exactly where the slice is appended to (timeout re-assignment)")
 	r.Rule("L2-sub: Coin(s)/DecCoin(s).Sub in block-hook-reachable code dominated by IsGTE/IsLT/GT/LT of the same operands, or arithmetic form AF1")
 	r.Assume(aDeps)
 	r.Assume(aCG)
@@ -398,6 +400,7 @@ func checkC02(r *core.Run) {
 	r.Assume("A-flow: a guard and the guarded use of a memory-held operand are not separated by a write to that operand")
 	ruleL1(r)
 	ruleL2(r)
+	ruleL2Couple(r)
 	runPositives(r, "L1", "L1-rec")
 }
 
@@ -471,4 +474,135 @@ func ltChain(ck *guard.Checker, b *ssa.BasicBlock, dT string) (bool, string) {
 		}
 	}
 	return false, ""
+}
+
+// ---- L2-couple: a slice indexed by the position in another collection whose size is bounded by a counter:
+// the counter and the slice must grow together.
+
+// phiWeb collects the values a φ-carried variable can take (through φ nodes), starting from v.
+func phiWeb(v ssa.Value) map[ssa.Value]bool {
+	web := map[ssa.Value]bool{}
+	var walk func(x ssa.Value)
+	walk = func(x ssa.Value) {
+		if web[x] {
+			return
+		}
+		web[x] = true
+		switch y := x.(type) {
+		case *ssa.Phi:
+			for _, e := range y.Edges {
+				walk(e)
+			}
+		case *ssa.Call:
+			if bi, ok := y.Call.Value.(*ssa.Builtin); ok && bi.Name() == "append" && len(y.Call.Args) > 0 {
+				walk(y.Call.Args[0])
+			}
+		case *ssa.BinOp:
+			if y.Op == token.ADD {
+				if _, ok := y.Y.(*ssa.Const); ok {
+					walk(y.X)
+				}
+			}
+		}
+	}
+	walk(v)
+	return web
+}
+
+func ruleL2Couple(r *core.Run) {
+	scope, _ := blockHookFuncs(r)
+	n := 0
+	for _, f := range r.P.SortedFuncs(scope) {
+		if r.P.IsGenerated(f) {
+			continue
+		}
+		res := r.Resolver(f)
+		for _, l := range cfgx.Loops(f) {
+			iff := cfgx.IfOf(l.Header)
+			if iff == nil {
+				continue
+			}
+			bo, ok := iff.Cond.(*ssa.BinOp)
+			if !ok || bo.Op != token.LSS {
+				continue
+			}
+			lc, ok := bo.Y.(*ssa.Call)
+			if !ok {
+				continue
+			}
+			if bi, ok := lc.Call.Value.(*ssa.Builtin); !ok || bi.Name() != "len" {
+				continue
+			}
+			Y := lc.Call.Args[0]
+			ycall, ok := Y.(*ssa.Call)
+			if !ok {
+				continue
+			}
+			// the collection ranged over is produced by a call taking an integer count
+			var cnt ssa.Value
+			for _, a := range ycall.Call.Args {
+				if bt, ok := a.Type().Underlying().(*types.Basic); ok && bt.Info()&types.IsInteger != 0 && cnt == nil {
+					av := a
+					if cvt, ok := av.(*ssa.Convert); ok {
+						av = cvt.X
+					}
+					for v := range phiWeb(av) {
+						if b2, ok := v.(*ssa.BinOp); ok && b2.Op == token.ADD {
+							cnt = a
+						}
+					}
+				}
+			}
+			if cnt == nil {
+				continue
+			}
+			// index sites S[i] inside the loop with i the loop's induction value and S another slice
+			for b := range l.Body {
+				for _, ins := range b.Instrs {
+					ia, ok := ins.(*ssa.IndexAddr)
+					if !ok || ia.Index != bo.X || ia.X == Y {
+						continue
+					}
+					if _, isSlice := ia.X.Type().Underlying().(*types.Slice); !isSlice {
+						continue
+					}
+					n++
+					yname, _ := res.CalleeName(&ycall.Call)
+					key := core.Key("L2-couple", r.P.Name(f), "slice indexed by position in result of "+yname)
+					// blocks where the slice grows / the counter grows
+					grow := map[*ssa.BasicBlock]bool{}
+					for v := range phiWeb(ia.X) {
+						if c, ok := v.(*ssa.Call); ok {
+							if bi, ok := c.Call.Value.(*ssa.Builtin); ok && bi.Name() == "append" {
+								grow[c.Block()] = true
+							}
+						}
+					}
+					inc := map[*ssa.BasicBlock]bool{}
+					cv := cnt
+					if cvt, ok := cv.(*ssa.Convert); ok {
+						cv = cvt.X
+					}
+					for v := range phiWeb(cv) {
+						if b2, ok := v.(*ssa.BinOp); ok && b2.Op == token.ADD {
+							inc[b2.Block()] = true
+						}
+					}
+					same := len(grow) == len(inc) && len(grow) > 0
+					for b2 := range grow {
+						if !inc[b2] {
+							same = false
+						}
+					}
+					if same {
+						r.Assume("A-count: a selection routine asked for n items returns at most n")
+						r.Discharge("L2-couple", key, r.P.Pos(ia.Pos()), "the slice is indexed by the position in a collection of at most n items, and n is incremented exactly in the blocks that append to the slice (len(slice) == n)")
+					} else {
+						r.Violate("L2-couple", key, r.P.Pos(ia.Pos()), fmt.Sprintf("a slice (%s) is indexed by the position in the result of a call bounded by a counter (%s), but the counter is not incremented in exactly the blocks that append to the slice: the index can exceed len(slice) and panic outside panic recovery", normT(res.Of(ia.X).String()), normT(res.Of(cnt).String())))
+					}
+				}
+			}
+		}
+	}
+	r.Floor("l2_couple_sites", n, 1)
 }
